@@ -755,7 +755,15 @@ func (x *Exec) callSiteObligations(fr *Frame, st *State, fn *ssa.Function, name 
 		return callee == name || callee == short || callee == fn.Name() || (fn.Pkg != nil && callee == fn.Pkg.Pkg.Name()+"."+short)
 	}
 	for _, cc := range x.rootFrame.contract.Calls {
-		if !matches(cc.Callee) {
+		callee := cc.Callee
+		if strings.HasSuffix(callee, "@root") {
+			// only calls made directly by the function under contract (not by inlined callees)
+			if fr != x.rootFrame {
+				continue
+			}
+			callee = strings.TrimSuffix(callee, "@root")
+		}
+		if !matches(callee) {
 			continue
 		}
 		vars := map[string]*Value{}
@@ -870,7 +878,14 @@ func (x *Exec) ifaceCallSiteObligations(fr *Frame, st *State, recv *Value, m *ty
 	full := shortType(recv.T) + "." + m.Name()
 	root := x.rootFrame
 	for _, cc := range root.contract.Calls {
-		if cc.Callee != full && cc.Callee != m.Name() {
+		callee := cc.Callee
+		if strings.HasSuffix(callee, "@root") {
+			if fr != x.rootFrame {
+				continue
+			}
+			callee = strings.TrimSuffix(callee, "@root")
+		}
+		if callee != full && callee != m.Name() {
 			continue
 		}
 		vars := map[string]*Value{}
